@@ -51,7 +51,14 @@ def _view(a):
     return a
 
 
+def _dt(dtype):
+    if dtype is float64 or dtype is double:
+        return _np.float64
+    return dtype
+
+
 def array(obj, dtype=None, *a, **k):
+    dtype = _dt(dtype)
     if _holds_sym(obj):
         if dtype not in (None, object, float, _np.float64, int, _np.int64, _np.double):
             raise Unsupported(f"np.array of symbolic data with dtype {dtype}")
@@ -60,6 +67,7 @@ def array(obj, dtype=None, *a, **k):
 
 
 def asarray(obj, dtype=None, *a, **k):
+    dtype = _dt(dtype)
     if _holds_sym(obj):
         return _np.asarray(obj, dtype=object).view(SymArray)
     return _np.asarray(obj, dtype, *a, **k)
@@ -182,6 +190,44 @@ def isfinite(x):
             return True
         return _np.ones(_np.asarray(x, dtype=object).shape, dtype=bool)
     return _np.isfinite(x)
+
+
+def _reduce_minmax(a, axis, is_min):
+    arr = _np.asarray(a, dtype=object)
+
+    def red(vals):
+        vals = list(vals)
+        if not any(isinstance(v, Sym) for v in vals):
+            return min(vals) if is_min else max(vals)
+        m = _toreal(lift(vals[0]))
+        for v in vals[1:]:
+            e = _toreal(lift(v))
+            m = z3.If(e < m, e, m) if is_min else z3.If(e > m, e, m)
+        return SymReal(z3.simplify(m))
+
+    if axis is None:
+        return red(arr.flat)
+    moved = _np.moveaxis(arr, axis, 0)
+    out = _np.empty(moved.shape[1:], dtype=object)
+    for idx in _np.ndindex(out.shape):
+        out[idx] = red(moved[(slice(None),) + idx])
+    return out.view(SymArray) if out.shape else out[()]
+
+
+def min(a, axis=None, *args, **kw):  # noqa: A001
+    if _holds_sym(a) and not args and not kw:
+        return _reduce_minmax(a, axis, True)
+    return _np.min(a, axis, *args, **kw)
+
+
+def max(a, axis=None, *args, **kw):  # noqa: A001
+    if _holds_sym(a) and not args and not kw:
+        return _reduce_minmax(a, axis, False)
+    return _np.max(a, axis, *args, **kw)
+
+
+amin = min
+amax = max
 
 
 class _ArrayKey:
